@@ -264,7 +264,7 @@ func (e *Env) evalIdent(name string) (Val, error) {
 			return v, nil
 		}
 	}
-	if e.localsAfter != nil && !e.inOld {
+	if e.localsAfter != nil {
 		if v, ok := e.localsAfter(name); ok {
 			return v, nil
 		}
